@@ -725,6 +725,10 @@ fn run_steps(sh: &Arc<Shared>, server: &Server, t: usize, steps: &[AStep], st: &
                 server.unblock();
             }
             AStep::Phase { k } => world::wait_phase(*k),
+            AStep::Spurious => {
+                world::log("\"ev\":\"Spurious\"".to_string());
+                world::spurious();
+            }
         }
     }
 }
